@@ -456,7 +456,7 @@ func tooBig(in []byte) bool {
 		return false
 	}
 	if declaredSize(in) > maxDeclared {
-		p.Count("skipped_declares_more_than_64MiB(see huge class)", 1)
+		p.Count("skipped_declares_over_64MiB_covered_by_huge_class", 1)
 		return true
 	}
 	return false
@@ -733,7 +733,7 @@ func phaseRoundtrip() {
 					p.Violation("precompressed:differs:"+cp.name, fmt.Sprintf("%s: SerializePrecompressedData(stored bytes) differs from SerializeData output (err=%v)", desc, err), map[string]interface{}{"case": desc})
 				}
 				p.Case(fmt.Sprintf("pre|%s|%s|%s|%s", pl.name, short(pl.data), cp.name, cksName(ck)), true)
-				if sampled < 3 && len(pl.data) > 8 && len(pl.data) < 40 && cp.code != cNone {
+				if sampled < 1 && len(pl.data) > 8 && len(pl.data) < 40 && cp.code == cLZ4 && ck == dvid.CRC32 {
 					sampled++
 					p.Sample(map[string]interface{}{"phase": "roundtrip", "payload_hex": hex.EncodeToString(pl.data), "comp": cp.name, "cks": cksName(ck), "serialized_hex": hex.EncodeToString(s)})
 				}
@@ -968,9 +968,9 @@ func phaseCorrupt() {
 						}
 						if !strict {
 							if ck == dvid.CRC32 {
-								p.Count("header_corruption_returned_other_data(not claimed)", 1)
+								p.Count("notclaimed_header_corruption_returned_other_data", 1)
 							} else {
-								p.Count("nochecksum_corruption_returned_other_data(not claimed)", 1)
+								p.Count("notclaimed_nochecksum_corruption_returned_other_data", 1)
 							}
 							continue
 						}
@@ -990,7 +990,7 @@ func phaseCorrupt() {
 				// for it), so no envelope can report it; observed and counted, not judged.
 				res := callDD([]byte{}, true, false, "truncate-to-empty")
 				if !res.panicked && res.err == nil && len(res.out) == 0 {
-					p.Count("truncate_to_zero_bytes_reads_as_empty_value(not judged)", 1)
+					p.Count("notjudged_truncate_to_zero_reads_as_empty_value", 1)
 				}
 			}
 		}
